@@ -28,6 +28,9 @@ def configs():
                     "drive": "dispatch", "poll": False})
     # a started active object (deterministic scheduler, round-robin), live output through the writer
     out.append({"deco": deco, "host": "ao", "live_spy": True, "live_trace": True, "drive": "post", "poll": False})
+    # the same, left to invent its own name
+    out.append({"deco": deco, "host": "ao", "live_spy": False, "live_trace": True, "drive": "post", "poll": False,
+                "anonymous": True})
   return out
 
 
@@ -45,7 +48,7 @@ def transcript_ao(case, cfg):
   sink = []
 
   def body(s):
-    chart = chartgen.bounded(ao.ActiveObject)(name="vfhost")
+    chart = chartgen.bounded(ao.ActiveObject)(name=None if cfg.get("anonymous") else "vfhost")
     chart.live_spy, chart.live_trace = cfg["live_spy"], cfg["live_trace"]
     chart.register_live_spy_callback(sink.append)
     chart.register_live_trace_callback(sink.append)
@@ -125,7 +128,7 @@ def cfg_name(c):
   return "%s/%s%s%s/%s%s" % ({False: "bare", True: "decorated", "other": "other-decorator"}[c["deco"]],
                              c["host"], "+live_spy" if c["live_spy"] else "",
                              "+live_trace" if c["live_trace"] else "", c["drive"],
-                             "+polled" if c["poll"] else "")
+                             ("+polled" if c["poll"] else "") + ("+anonymous" if c.get("anonymous") else ""))
 
 
 class C18(Prop):
